@@ -32,7 +32,17 @@
  * reference model, see "reference model" below); everything else is plain.
  *
  * Modes: "hist" random phase-structured 625-line histories, "xds" the same for
- * XDS, "exh" all histories of length <= p0 over a 4 value alphabet per carrier.
+ * XDS, "exh" all histories of length <= p0 over a 4 value alphabet per carrier,
+ * "zap" station changes that come with a time stamp discontinuity (dropped or
+ * duplicated frames, as a tuner does when it is retuned) or are announced with
+ * vbi_channel_switched(): the only mode in which vbi_decode()'s frame drop
+ * countdown runs.  There a blank NETWORK / ASPECT event (the documented
+ * revocation) may precede the announcement of the new station - and only there:
+ *  R5 with a time gap: exactly one NETWORK event names the new station, at most
+ *     one blank one before it and none after it, old probe page dropped
+ * A gap without a station change is run (R1-R3, sanitizers) but its NETWORK
+ * events are not judged: vbi_decode() documents that irregular time stamps may
+ * be taken for a channel switch, the statement does not speak about them.
  */
 #include "vf.h"
 #include <string.h>
@@ -63,10 +73,15 @@ struct rx {
 	int station;                    /* table id by the reference lookup, 0 unknown */
 	int deviant;                    /* generated as a single deviating reception */
 	int phase;
+	long frame;                     /* the (last) frame that carried it */
+	int gap;                        /* a time stamp discontinuity (or vbi_channel_switched()) on this reception's frame or on
+	                                 * the frames without identification lines since the reception before */
 };
 
 struct evrec {
 	int rx, type, blank;
+	int pos;                        /* the reception being decoded or, outside receptions, the last one decoded */
+	long frame;                     /* number of the vbi_decode() call */
 	vbi_network net;
 	vbi_program_id pid;
 	vbi_local_time lt;
@@ -83,6 +98,33 @@ static int cur_rx;
 static vbi_decoder *vbi;
 static double now;
 static long n_ttx_events;
+
+/* frames and time stamps.  Every vbi_decode() call is one frame; the time stamp advances by the regular frame
+ * period unless a discontinuity was ordered for the next frame (mode "zap" only). */
+#define MAXGAP 64
+static long frame_no;                   /* frames decoded so far = number of the frame being decoded, from 1 */
+static int gap_pending; static double gap_delta;
+static long gap_frames[MAXGAP]; static int n_gap_frames;        /* frames that started the decoder's frame drop countdown */
+static long ts_gap_frames[MAXGAP]; static int n_ts_gap_frames;  /* those of them whose time stamp was irregular */
+static int gap_mark;                    /* a gap since the last reception was transmitted */
+static int last_tx_rx;
+
+static void note_gap(long frame)
+{
+	if (n_gap_frames < MAXGAP) gap_frames[n_gap_frames++] = frame;
+	gap_mark = 1;
+}
+
+static double tick(double regular)
+{
+	frame_no++;
+	if (gap_pending) {
+		now += gap_delta; gap_pending = 0; note_gap(frame_no); vf_count("time_gaps", 1);
+		if (n_ts_gap_frames < MAXGAP) ts_gap_frames[n_ts_gap_frames++] = frame_no;
+	}
+	else now += regular;
+	return now;
+}
 
 /* ---------------- stations (data from network-table.h) ---------------- */
 
@@ -198,6 +240,7 @@ static void handler(vbi_event *ev, void *ud)
 	e = &evs_lib[n_ev++];
 	memset(e, 0, sizeof *e);
 	e->rx = cur_rx; e->type = ev->type;
+	e->pos = cur_rx >= 0 ? cur_rx : last_tx_rx; e->frame = frame_no;
 	switch (ev->type) {
 	case VBI_EVENT_NETWORK: case VBI_EVENT_NETWORK_ID: e->net = ev->ev.network; break;
 	case VBI_EVENT_PROG_ID: e->pid = *ev->ev.prog_id; break;
@@ -244,14 +287,14 @@ static void decode1(unsigned id, int line, const uint8_t *data, int n)
 	memset(&sl, 0, sizeof sl);
 	sl.id = id; sl.line = (uint32_t)line;
 	memcpy(sl.data, data, (size_t)n);
-	now += 0.04;
+	tick(0.04);
 	vf_phase("vbi_decode");
 	vbi_decode(vbi, &sl, 1, now);
 }
 
 static void idle_frames(int n)
 {
-	while (n-- > 0) { now += 0.04; vf_phase("vbi_decode"); vbi_decode(vbi, NULL, 0, now); }
+	while (n-- > 0) { tick(0.04); vf_phase("vbi_decode"); vbi_decode(vbi, NULL, 0, now); }
 }
 
 /* probe page: parallel magazine 3..7, so the rolling header comparison stays out of it */
@@ -287,8 +330,8 @@ static void transmit(struct vf_rng *r, int i)
 {
 	struct rx *x = &rxs[i];
 	uint8_t p[42];
-	cur_rx = i;
-	if (vf_verbose) vf_log("   rx %s phase %d\n", rx_str(i), x->phase);
+	cur_rx = last_tx_rx = i;
+	if (vf_verbose) vf_log("   rx %s phase %d frame %ld%s\n", rx_str(i), x->phase, frame_no + 1, gap_pending ? " (time gap)" : "");
 	switch (x->carrier) {
 	case CR_VPS: {
 		struct tx_vps t = { x->cni, x->pil, x->pcs, x->pty };
@@ -325,7 +368,7 @@ static void transmit(struct vf_rng *r, int i)
 			memset(sl, 0, sizeof sl);
 			sl[0].id = VBI_SLICED_CAPTION_525; sl[0].line = 21; sl[0].data[0] = 0x80; sl[0].data[1] = 0x80;
 			sl[1].id = VBI_SLICED_CAPTION_525; sl[1].line = 284; sl[1].data[0] = pr[k][0]; sl[1].data[1] = pr[k][1];
-			now += 1 / 29.97;
+			tick(1 / 29.97);
 			vf_phase("vbi_decode");
 			vbi_decode(vbi, sl, 2, now);
 		}
@@ -333,6 +376,8 @@ static void transmit(struct vf_rng *r, int i)
 	}
 	}
 	cur_rx = -1;
+	if (gap_mark) { x->gap = 1; gap_mark = 0; }
+	x->frame = frame_no;
 	vf_count("receptions", 1);
 }
 
@@ -441,9 +486,9 @@ static void viol(const char *key, const char *fmt, ...)
  * table, 2 some carriers name the station, the others send no CNI (zero: "unknown or not applicable"),
  * 3 the carriers disagree (one names a station of the table, another has a CNI that is not in the table),
  * 4 xds, 5 exhaustive */
-enum { D_KNOWN, D_UNKNOWN, D_PARTIAL, D_DISAGREE, D_XDS, D_EXH };
+enum { D_KNOWN, D_UNKNOWN, D_PARTIAL, D_DISAGREE, D_XDS, D_EXH, D_ZAP, D_ZAPX };
 static int domain;
-static const char *const dom_name[] = { "known", "unknown", "known+zero", "disagree", "xds", "exh" };
+static const char *const dom_name[] = { "known", "unknown", "known+zero", "disagree", "xds", "exh", "zap", "zap-xds" };
 
 /* Violations seen while one carrier sends a zero CNI next to carriers naming a station, or while the
  * carriers disagree, get their own keys (different code paths, different root causes). */
@@ -468,6 +513,84 @@ static int input_change(int i)
 	return pp < 0 || !same_value(&rxs[pp], &rxs[p]);
 }
 
+/* The blank ASPECT event of vbi_chsw_reset() ("unknown aspect ratio", revoking what was announced).  The
+ * transmitters never send subtitle mode 3, so no transmitted WSS word stands for it. */
+static int is_blank_aspect(const vbi_aspect_ratio *a)
+{
+	return a->open_subtitles == VBI_SUBT_UNKNOWN && a->ratio == 1.0 && !a->film_mode;
+}
+
+/* Has the frame drop countdown of vbi_decode() been started (time stamp discontinuity, vbi_channel_switched())
+ * since the frame of the last NETWORK event naming a station, up to the given frame?  Only then a blank NETWORK /
+ * ASPECT event may be raised on a frame of its own accord (documented: "you may also receive blank events
+ * revoking a previously sent event"). */
+static int countdown_open(long ident_frame, long frame)
+{
+	int k;
+	for (k = 0; k < n_gap_frames; k++) if (gap_frames[k] > ident_frame && gap_frames[k] <= frame) return 1;
+	return 0;
+}
+
+/* A recorded deviation of the library, seen only where time stamps are irregular (mode "zap"): a station
+ * identified while *no* station is identified (after vbi_channel_switched() or a revocation) does not go
+ * through vbi_chsw_reset(), so a frame drop countdown started in between keeps running, and when it expires
+ * the station just announced is revoked, its pages are dropped and it is announced once more.
+ * Q-identification-keeps-frame-drop-countdown: the blank NETWORK event evs[ex] is exactly that - the NETWORK
+ * event before it names a station (N1), the one before N1 is blank (B0), a time stamp discontinuity g0 lies
+ * between B0 and N1 (first one after B0), and evs[ex] comes with the 40th regular frame after g0. */
+static int q_stale_countdown_blank(int ex)
+{
+	int e, n1 = -1, b0 = -1, k, j;
+	long g0 = 0, f, regular = 0;
+	if (evs[ex].type != VBI_EVENT_NETWORK || !is_blank(&evs[ex].net)) return 0;
+	for (e = ex - 1; e >= 0; e--) if (evs[e].type == VBI_EVENT_NETWORK) { if (n1 < 0) n1 = e; else { b0 = e; break; } }
+	if (n1 < 0 || b0 < 0 || is_blank(&evs[n1].net) || !is_blank(&evs[b0].net)) return 0;
+	for (k = 0; k < n_ts_gap_frames; k++) if (ts_gap_frames[k] > evs[b0].frame && ts_gap_frames[k] <= evs[n1].frame && (!g0 || ts_gap_frames[k] < g0)) g0 = ts_gap_frames[k];
+	if (!g0) return 0;
+	for (f = g0 + 1; f <= evs[ex].frame; f++) {
+		for (j = 0, k = 0; k < n_ts_gap_frames; k++) if (ts_gap_frames[k] == f) j = 1;
+		if (!j) regular++;
+	}
+	return regular == 40;
+}
+
+/* the same station announced at frame f1 and again at frame f2 with nothing but such a blank event in between */
+static int q_stale_countdown_between(long f1, long f2)
+{
+	int e, ex = -1, n = 0, named1 = 0;
+	for (e = 0; e < n_ev; e++) {
+		if (evs[e].type != VBI_EVENT_NETWORK) continue;
+		if (evs[e].frame == f1 && !is_blank(&evs[e].net)) named1 = 1;
+		if (evs[e].frame > f1 && evs[e].frame < f2) { n++; ex = e; }
+	}
+	return named1 && n == 1 && q_stale_countdown_blank(ex);
+}
+#define Q_COUNTDOWN_KEY "model:C13:Q-identification-keeps-frame-drop-countdown"
+
+static int blank_network_at_frame(long frame)
+{
+	int e;
+	for (e = 0; e < n_ev; e++) if (evs[e].type == VBI_EVENT_NETWORK && evs[e].frame == frame && is_blank(&evs[e].net)) return 1;
+	return 0;
+}
+
+/* some announcement made at frame f1 and again at frame f2 with such a blank event in between */
+static int q_stale_countdown_within(long f1, long f2)
+{
+	int e;
+	for (e = 0; e < n_ev; e++) if (evs[e].type == VBI_EVENT_NETWORK && evs[e].frame > f1 && evs[e].frame < f2 && q_stale_countdown_blank(e)) return 1;
+	return 0;
+}
+
+/* Can the frame drop countdown have ended after frame a, up to frame b?  It is started by a discontinuity and runs
+ * for "about 1.5 s" (40 regular frames in the library; 64 frames allowed here). */
+static int countdown_may_have_ended(long a, long b)
+{
+	int k;
+	for (k = 0; k < n_gap_frames; k++) if (gap_frames[k] <= b && a - gap_frames[k] <= 64) return 1;
+	return 0;
+}
+
 static int same_announcement(const vbi_network *a, const vbi_network *b)
 {
 	return a->nuid == b->nuid && a->cni_vps == b->cni_vps && a->cni_8301 == b->cni_8301 && a->cni_8302 == b->cni_8302
@@ -486,20 +609,40 @@ static void rules_R1_R2_R3(void)
 	int upto = -1;                  /* receptions folded into last_tx */
 	int last_asp_ev = -1, revoked_since_asp = 1;
 	int first_nuid[2048]; /* by station id */
+	long ident_frame = 0;           /* frame of the last NETWORK event naming a station */
+	long last_frame[3] = { 0, 0, 0 };       /* frame of the last reception on the carrier */
 	memset(first_nuid, 0, sizeof first_nuid);
 
 	for (e = 0; e < n_ev; e++) {
 		struct evrec *v = &evs[e];
 		const struct rx *x;
 		/* fold receptions up to and including the one that raised this event */
-		for (i = upto + 1; i <= v->rx && i < n_rx; i++) {
+		for (i = upto + 1; i <= (v->rx >= 0 ? v->rx : v->pos) && i < n_rx; i++) {
 			int p = prev_on_carrier(i), rep = p >= 0 && same_value(&rxs[p], &rxs[i]);
-			if (rxs[i].carrier <= CR_8302) { last_tx[rxs[i].carrier] = rxs[i].cni; zeroed[rxs[i].carrier] = 0; if (rep) conf_tx[rxs[i].carrier] = rxs[i].cni;
+			if (rxs[i].carrier <= CR_8302) { last_tx[rxs[i].carrier] = rxs[i].cni; zeroed[rxs[i].carrier] = 0; last_frame[rxs[i].carrier] = rxs[i].frame; if (rep) conf_tx[rxs[i].carrier] = rxs[i].cni;
 				if (rxs[i].cni) { last_nz[rxs[i].carrier] = rxs[i].cni; if (rep) conf_nz[rxs[i].carrier] = rxs[i].cni; } }
 			if (rxs[i].carrier == CR_XCALL) { strcpy(last_call, rxs[i].str); if (rep) { strcpy(conf_call, rxs[i].str); call_zeroed = 0; } }
 		}
-		if (v->rx > upto) upto = v->rx;
+		if ((v->rx >= 0 ? v->rx : v->pos) > upto) upto = v->rx >= 0 ? v->rx : v->pos;
 		viol_phase = -1;
+		if (v->rx < 0 && n_gap_frames
+		    && ((v->type == VBI_EVENT_NETWORK && is_blank(&v->net)) || (v->type == VBI_EVENT_ASPECT && is_blank_aspect(&v->asp) && (countdown_open(ident_frame, v->frame) || blank_network_at_frame(v->frame))))) {
+			/* the revocation at the end of the frame drop countdown, on a frame without identification lines;
+			 * a blank ASPECT event next to a blank NETWORK event is judged with that one */
+			if (v->type == VBI_EVENT_NETWORK) {
+				if (!countdown_open(ident_frame, v->frame)) {
+					if (q_stale_countdown_blank(e))
+						viol(Q_COUNTDOWN_KEY, "model:C13:event-outside-reception: blank NETWORK event at frame %ld, on a frame without identification lines, after the station had been announced at frame %ld and with regular time stamps since; it comes 40 regular frames after a time stamp discontinuity that preceded the announcement, when no station was identified", v->frame, ident_frame);
+					else
+						viol("model:C13:event-outside-reception", "blank NETWORK event at frame %ld, on a frame without identification lines, although no time stamp discontinuity occurred since a station was announced at frame %ld", v->frame, ident_frame);
+				}
+				COUNT("ev_network_blank", 1); if (countdown_open(ident_frame, v->frame)) COUNT("ev_network_blank_after_time_gap", 1);
+				v->blank = 1;
+				for (c = 0; c < 3; c++) { zeroed[c] = 1; conf_tx[c] = last_nz[c] = conf_nz[c] = 0; }
+				call_zeroed = 1; conf_call[0] = 0;
+			} else { COUNT("ev_aspect_revoked", 1); revoked_since_asp = 1; }
+			continue;
+		}
 		if (v->rx < 0 || v->rx >= n_rx) {
 			viol("model:C13:event-outside-reception", "event type 0x%x raised while no identification line was being decoded (probe page or idle frame)", v->type);
 			continue;
@@ -514,6 +657,8 @@ static void rules_R1_R2_R3(void)
 			int blank = is_blank(n);
 			COUNT(v->type == VBI_EVENT_NETWORK ? (blank ? "ev_network_blank" : "ev_network") : (blank ? "ev_network_id_blank" : "ev_network_id"), 1);
 			v->blank = blank;
+			if (!blank && v->type == VBI_EVENT_NETWORK) ident_frame = v->frame;
+			if (blank && v->type == VBI_EVENT_NETWORK && countdown_open(ident_frame, v->frame)) COUNT("ev_network_blank_after_time_gap", 1);
 			if (blank) {
 				for (c = 0; c < 3; c++) { zeroed[c] = 1; conf_tx[c] = last_nz[c] = conf_nz[c] = 0; }
 				call_zeroed = 1; conf_call[0] = 0;
@@ -533,6 +678,9 @@ static void rules_R1_R2_R3(void)
 					if ((unsigned)got[c] == last_tx[c]) continue;
 					if (c != x->carrier && (unsigned)got[c] == conf_tx[c] && (conf_tx[c] || zeroed[c])) continue;
 					if (c != x->carrier && got[c] == 0 && zeroed[c]) continue;
+					/* unknown: the carrier has not been received since the frame drop countdown may have ended (it
+					 * ends without an event when there is nothing to revoke) */
+					if (c != x->carrier && got[c] == 0 && n_gap_frames && countdown_may_have_ended(last_frame[c], v->frame)) continue;
 					viol(c == x->carrier ? "model:C13:R1:announced-cni-differs" : "model:C13:R1:other-cni-differs",
 						"%s event during %s carries cni[%s]=0x%04x, last transmitted on that carrier 0x%04x; event cni_vps=%04x cni_8301=%04x cni_8302=%04x nuid=%u name='%s'",
 						tn, rx_str(v->rx), cr_name[c], got[c], last_tx[c], n->cni_vps, n->cni_8301, n->cni_8302, n->nuid, n->name);
@@ -596,8 +744,11 @@ static void rules_R1_R2_R3(void)
 					if (evs[e2].type == v->type && !evs[e2].blank && evs[e2].rx >= 0 && same_announcement(&evs[e2].net, n)) break;
 				if (e2 >= 0) {
 					for (i = evs[e2].rx + 1; i <= v->rx; i++)
-						if (rxs[i].carrier != CR_WSS && input_change(i)) changed = 1;
-					if (!changed)
+						if ((rxs[i].carrier != CR_WSS && input_change(i)) || rxs[i].gap) changed = 1;
+					if (!changed && n_ts_gap_frames && q_stale_countdown_within(evs[e2].frame, v->frame))
+						viol(Q_COUNTDOWN_KEY, "%s: %s (nuid %u name='%s') raised at frame %ld and, after a blank NETWORK event, again at frame %ld while the same values kept arriving; the blank event comes 40 regular frames after a time stamp discontinuity that preceded the first announcement, when no station was identified",
+							v->type == VBI_EVENT_NETWORK ? "model:C13:R3:network-repeated" : "model:C13:R3:network-id-repeated", tn, n->nuid, n->name, evs[e2].frame, v->frame);
+					else if (!changed)
 						viol(dkey(v->type == VBI_EVENT_NETWORK ? "model:C13:R3:network-repeated" : "model:C13:R3:network-id-repeated"),
 							"%s (nuid %u vps=%03x 8301=%04x 8302=%04x name='%s' call='%s') raised again by %s although every reception since the same announcement (by %s) repeated its carrier's value",
 							tn, n->nuid, n->cni_vps, n->cni_8301, n->cni_8302, n->name, n->call, rx_str(v->rx), rx_str(evs[e2].rx));
@@ -639,7 +790,7 @@ static void rules_R1_R2_R3(void)
 			break;
 		}
 		case VBI_EVENT_ASPECT: {
-			if (x->carrier != CR_WSS) {
+			if (x->carrier != CR_WSS || (is_blank_aspect(&v->asp) && (countdown_open(ident_frame, v->frame) || blank_network_at_frame(v->frame)))) {
 				/* revocation after a channel switch ("blank events ... revoking a previously sent event") */
 				COUNT("ev_aspect_revoked", 1);
 				revoked_since_asp = 1;
@@ -698,7 +849,8 @@ static int count_deviants(int a, int b)
 
 static void new_decoder(void)
 {
-	n_rx = n_ev = ev_overflow = 0; cur_rx = -1; now = 1000.0; probe_counter = 0; n_ttx_events = 0;
+	n_rx = n_ev = ev_overflow = 0; cur_rx = last_tx_rx = -1; now = 1000.0; probe_counter = 0; n_ttx_events = 0;
+	frame_no = 0; gap_pending = 0; n_gap_frames = n_ts_gap_frames = 0; gap_mark = 0;
 	vf_phase("vbi_decoder_new");
 	vbi = vbi_decoder_new();
 	if (!vbi) { vf_fail("harness:alloc", "vbi_decoder_new failed"); return; }
@@ -1438,11 +1590,284 @@ static int run_exh(long idx, int maxlen)
 	return n_ev > 0;
 }
 
+/* ---------------- station changes with a time stamp discontinuity ("zap") ----------------
+ *
+ * What vbi_decode() documents: time stamps which do not advance by 1/30 .. 1/25 s are taken for dropped frames,
+ * "eventually a channel switch may be assumed which resets even more decoder state"; vbi_channel_switched()
+ * orders the same reset for the next frame; "you may also receive blank events (e. g. unknown network, unknown
+ * aspect ratio) revoking a previously sent event, until new information becomes available".  What the statement
+ * demands when the identified station changes: exactly one NETWORK event, old pages dropped.  Together, for a
+ * change to another known station that comes with such a discontinuity:
+ *   - exactly one NETWORK event which names a station (R1 makes sure it is the one transmitted),
+ *   - at most one blank NETWORK event, and only before that one (revoking the old station while the new one has
+ *     not been received twice yet); a blank event after it would revoke the station which is being received,
+ *   - the probe page of the old station is gone,
+ * observed when the new station has been on air for more than 40 regular frames after the last discontinuity
+ * and every carrier has repeated its identifier since, i. e. whenever the library chooses to give up waiting.
+ * Control phases: a change to a station not seen before without any discontinuity (one NETWORK event, blank
+ * ones count) and a discontinuity without a change (not judged, see the head of this file).  After the
+ * observation every phase has a steady part with regular frames: no NETWORK event, new probe page kept.
+ */
+enum { ZK_START, ZK_ZAP, ZK_PLAIN, ZK_GAP_ONLY };
+struct zphase {
+	int kind, sys525, zapback, disjoint, sparse, burst, announced, nact;
+	int start, settled, end;                /* receptions */
+	long f_start, f_gap, f_obs, f_end;      /* frames: first of the phase, first discontinuity, observation, end */
+	int probe, probe_before, old_probe_cached, probe_cached_at_end;
+	char what[120];
+};
+static struct zphase zph[8];
+static int n_zph;
+
+static void judge_zap(void)
+{
+	int k, e;
+	for (k = 0; k < n_zph; k++) {
+		const struct zphase *z = &zph[k];
+		const char *x5 = z->sys525 ? "xds:" : "";
+		char key[120];
+		int named = 0, blank_before = 0, blank_after = 0, steady = 0;
+		long f_named = 0, f_named2 = 0;
+		viol_phase = k;
+		for (e = 0; e < n_ev; e++) {
+			if (evs[e].type != VBI_EVENT_NETWORK || evs[e].frame < z->f_start || evs[e].frame > z->f_end) continue;
+			if (evs[e].frame > z->f_obs) { steady++; continue; }
+			if (!is_blank(&evs[e].net)) { if (!named) f_named = evs[e].frame; else f_named2 = evs[e].frame; named++; }
+			else if (named) blank_after++; else blank_before++;
+		}
+		if (steady) {
+			snprintf(key, sizeof key, "model:C13:%snetwork-event-without-change", x5);
+			viol(key, "%d NETWORK event(s) in the steady part of phase %d (frames %ld..%ld, regular time stamps, no station change, no deviating word); %s", steady, k, z->f_obs + 1, z->f_end, desc);
+		}
+		if (!z->probe_cached_at_end) {
+			snprintf(key, sizeof key, "model:C13:%scache-cleared-without-change", x5);
+			viol(key, "probe page %x cached after the station had settled is gone at the end of phase %d (frames %ld..%ld, regular time stamps, no station change, no deviating word); %s", z->probe, k, z->f_obs + 1, z->f_end, desc);
+		}
+		COUNT("steady_windows", 1);
+		if (z->kind == ZK_ZAP) {
+			COUNT("station_changes_with_time_gap", 1);
+			if (z->zapback) COUNT("station_changes_with_time_gap_back_to_the_station_before", 1);
+			if (z->disjoint) COUNT("station_changes_with_time_gap_back_on_a_carrier_silent_meanwhile", 1);
+			if (z->announced) COUNT("station_changes_announced_with_vbi_channel_switched", 1);
+			if (named == 1 && !blank_before) COUNT("station_changes_with_time_gap_identified_before_revocation", 1);
+			if (named == 1 && blank_before == 1) COUNT("station_changes_with_time_gap_identified_after_revocation", 1);
+			if (named == 2 && blank_after == 1 && blank_before <= 1 && q_stale_countdown_between(f_named, f_named2)) {
+				COUNT("station_changes_with_time_gap_new_station_revoked_by_countdown_started_before_it_was_identified", 1);
+				viol(Q_COUNTDOWN_KEY, "model:C13:R5:%stime-gap:network-events-on-change: the new station is announced at frame %ld, revoked by a blank NETWORK event and announced again at frame %ld while it keeps arriving with regular time stamps; the blank event comes 40 regular frames after a time stamp discontinuity that preceded the first announcement, when no station was identified (phase %d: %s; frames %ld..%ld); %s",
+					x5, f_named, f_named2, k, z->what, z->f_start, z->f_obs, desc);
+				blank_after = 0; named = 1;
+			}
+			if (named != 1 || blank_before > 1) {
+				snprintf(key, sizeof key, "model:C13:R5:%stime-gap:network-events-on-change", x5);
+				viol(key, "%d NETWORK events naming a station (exactly one expected), %d blank one(s) before the first of them (at most one expected) and %d after it, while the station changed to another known station together with a time stamp discontinuity (phase %d: %s; frames %ld..%ld, discontinuity at frame %ld, first announcement at frame %ld); %s",
+					named, blank_before, blank_after, k, z->what, z->f_start, z->f_obs, z->f_gap, f_named, desc);
+			}
+			if (blank_after) {
+				snprintf(key, sizeof key, "model:C13:R5:%stime-gap:new-station-revoked", x5);
+				viol(key, "%d blank NETWORK event(s) after the new station had been announced at frame %ld: the station changed once, together with a time stamp discontinuity at frame %ld, and kept arriving with regular time stamps (phase %d: %s; frames %ld..%ld, %d NETWORK events naming a station); %s",
+					blank_after, f_named, z->f_gap, k, z->what, z->f_start, z->f_obs, named, desc);
+			}
+			if (z->old_probe_cached) {
+				snprintf(key, sizeof key, "model:C13:R5:%stime-gap:old-pages-kept", x5);
+				viol(key, "probe page %x of the previous station is still cached %ld frames after the station changed together with a time stamp discontinuity (phase %d: %s); %s", z->probe_before, z->f_obs - z->f_gap, k, z->what, desc);
+			}
+			SIG("R5 %s gap %s%s%s%s carriers=%d outcome=%s", dom_name[domain], z->announced ? "announced" : z->burst ? "burst" : "single", z->sparse ? " sparse" : "", z->zapback ? " back" : "", z->disjoint ? " silent" : "",
+				z->nact, named != 1 ? "?" : blank_before ? "revoked-first" : "direct");
+		} else if (z->kind == ZK_PLAIN) {
+			COUNT(z->sys525 ? "station_changes_xds" : "station_changes_known_to_known", 1);
+			if (named + blank_before + blank_after != 1) {
+				snprintf(key, sizeof key, "model:C13:R5:%snetwork-events-on-change", x5);
+				viol(key, "%d NETWORK events (%d blank) while the station changed to another known station (phase %d: %s; frames %ld..%ld, regular time stamps), exactly one expected; %s",
+					named + blank_before + blank_after, blank_before + blank_after, k, z->what, z->f_start, z->f_obs, desc);
+			}
+			if (z->old_probe_cached) {
+				snprintf(key, sizeof key, "model:C13:R5:%sold-pages-kept", x5);
+				viol(key, "probe page %x of the previous station is still cached after the change to another known station (phase %d: %s); %s", z->probe_before, k, z->what, desc);
+			}
+			SIG("R5 %s plain carriers=%d", dom_name[domain], z->nact);
+		} else if (z->kind == ZK_GAP_ONLY) {
+			/* not judged: the statement does not speak about dropped frames without a station change */
+			COUNT("time_gaps_without_station_change", 1);
+			if (blank_before || blank_after) COUNT("time_gaps_without_station_change_station_revoked", 1);
+			if (named) COUNT("time_gaps_without_station_change_station_announced_again", 1);
+			SIG("gap-only %s %s%s revoked=%d again=%d", dom_name[domain], z->announced ? "announced" : z->burst ? "burst" : "single", z->sparse ? " sparse" : "", blank_before + blank_after > 0, named > 0);
+		}
+	}
+	viol_phase = -1;
+}
+
+struct zstation { const struct station *st; int active[3]; char name[36]; };
+
+static void order_gap(struct vf_rng *r)
+{
+	static const double fixed[] = { 0.0, 0.02, 0.024, 0.051, 0.06, 0.08 };   /* duplicated frame, too early, one frame missing ... */
+	switch (vf_below(r, 4)) {
+	case 0: gap_delta = fixed[vf_below(r, 6)]; break;
+	case 1: gap_delta = 0.08 + 0.04 * vf_range(r, 0, 50); break;           /* 1 .. 51 frames missing */
+	case 2: gap_delta = 0.2 + 3.0 * vf_unit(r); break;
+	default: gap_delta = 5.0 + 600.0 * vf_unit(r); break;
+	}
+	gap_pending = 1;
+}
+
+static int run_zap(struct vf_rng *r)
+{
+	struct zstation used[8], cur, prev;
+	int n_used = 0, have_prev = 0, k, c, i, o = 0, probe = 0;
+	int sys525 = vf_chance(r, 1, 4);
+	struct prog pg; struct tx_wss wss; struct clock_ ck;
+	double period = sys525 ? 1 / 29.97 : 0.04;
+
+	domain = sys525 ? D_ZAPX : D_ZAP;
+	new_decoder();
+	if (!vbi) return 0;
+	vf_bytes(r, vps_background, 13);
+	vps_background[2] &= 0xEF;
+	rand_prog(r, &pg); rand_wss(r, &wss);
+	ck.mjd = vf_range(r, 40587, 70000); ck.sec = vf_range(r, 0, 86399); ck.lto = vf_range(r, -24, 26);
+	n_zph = vf_range(r, 2, 4);
+	memset(zph, 0, sizeof zph);
+	memset(&cur, 0, sizeof cur); memset(&prev, 0, sizeof prev);
+	desc[0] = 0;
+
+	for (k = 0; k < n_zph; k++) {
+		struct zphase *z = &zph[k];
+		int act[4] = { 0, 0, 0, 0 }, need[4], left, nact = 0, change, steady, kd = (int)vf_below(r, 100);
+		z->kind = k == 0 ? ZK_START : kd < 60 ? ZK_ZAP : kd < 75 ? ZK_PLAIN : ZK_GAP_ONLY;
+		z->sys525 = sys525;
+		change = z->kind != ZK_GAP_ONLY;
+		if (change) {
+			struct zstation ns;
+			int back = z->kind == ZK_ZAP && have_prev && vf_chance(r, 1, 3);
+			memset(&ns, 0, sizeof ns);
+			if (back) { ns = prev; z->zapback = 1; }
+			else for (;;) {
+				int fresh = 1, one = vf_chance(r, 1, 3), usable = 0, pick;
+				if (sys525) rand_str(r, ns.name, 2, 24);
+				else {
+					ns.st = &stations[vf_below(r, vf_chance(r, 2, 3) ? (unsigned)n_multi : (unsigned)n_stations)];
+					for (c = 0; c < 3; c++) { ns.active[c] = 0; usable += ns.st->ok[c]; }
+					if (!usable) continue;
+					pick = (int)vf_below(r, (unsigned)usable);
+					for (c = 0; c < 3; c++) if (ns.st->ok[c]) { ns.active[c] = one ? pick == 0 : (pick == 0 || vf_chance(r, 3, 4)); pick--; }
+				}
+				for (i = 0; i < n_used; i++) if (sys525 ? !strcmp(used[i].name, ns.name) : used[i].st->id == ns.st->id) fresh = 0;
+				if (fresh) break;
+			}
+			if (k > 0) {
+				prev = cur; have_prev = 1;
+				if (z->zapback && !sys525) { z->disjoint = 1; for (c = 0; c < 3; c++) if (ns.active[c] && cur.active[c]) z->disjoint = 0; }
+			}
+			cur = ns;
+			if (!z->zapback && n_used < 8) used[n_used++] = ns;
+		}
+		if (sys525) { nact = 1; }
+		else {
+			for (c = 0; c < 3; c++) { act[c] = cur.active[c]; nact += act[c]; }
+			act[CR_WSS] = vf_chance(r, 1, 2);
+			if (change) rand_wss(r, &wss);
+			wss.bad_parity = 0;
+		}
+		if (change) rand_prog(r, &pg);
+		z->nact = nact;
+		z->sparse = vf_chance(r, 1, 3);
+		z->start = n_rx; z->f_start = frame_no + 1; z->probe_before = probe;
+		if (sys525) snprintf(z->what, sizeof z->what, "XDS name '%s'", cur.name);
+		else snprintf(z->what, sizeof z->what, "'%s' vps=%s%03x 8301=%s%04x 8302=%s%04x wss=%d", cur.st->name, act[0] ? "" : "-", cur.st->cni[0], act[1] ? "" : "-", cur.st->cni[1], act[2] ? "" : "-", cur.st->cni[2], act[3]);
+
+		/* --- the discontinuity: on the first frame of the phase and, in a burst, on some of the frames up to and
+		 * including the one with the first identification line of the phase (no identifier can have repeated
+		 * before the last discontinuity) --- */
+		if (z->kind == ZK_ZAP || z->kind == ZK_GAP_ONLY) {
+			int pre = (int)vf_below(r, 3), first = 1;
+			z->burst = vf_chance(r, 1, 4);
+			z->announced = vf_chance(r, 1, 5);
+			z->f_gap = frame_no + 1;
+			if (z->announced) {
+				/* the application says so; with or without a discontinuity of the time stamps */
+				vf_phase("vbi_channel_switched");
+				vbi_channel_switched(vbi, 0);
+				note_gap(frame_no + 1);
+				vf_count("vbi_channel_switched_calls", 1);
+				first = vf_chance(r, 1, 2);
+			}
+			for (i = 0; i < pre; i++) {
+				if (first || (z->burst && vf_chance(r, 1, 2))) order_gap(r);
+				first = 0;
+				tick(period); vf_phase("vbi_decode"); vbi_decode(vbi, NULL, 0, now);
+			}
+			if (first || (z->burst && vf_chance(r, 1, 2))) order_gap(r);
+		}
+		o += snprintf(desc + o, sizeof desc - (size_t)o, "[phase %d %s%s%s%s%s%s: %s] ", k,
+			z->kind == ZK_START ? "start" : z->kind == ZK_ZAP ? "change with time gap" : z->kind == ZK_PLAIN ? "change, regular time stamps" : "time gap, same station",
+			z->announced ? ", vbi_channel_switched()" : "", z->burst ? ", burst" : "", z->sparse ? ", sparse" : "", z->zapback ? ", back to the station before" : "", z->disjoint ? " on carriers silent meanwhile" : "", z->what);
+		if (o > (int)sizeof desc - 260) o = (int)sizeof desc - 260;
+
+		/* --- the station settles: every carrier at least four clean receptions; then, after a discontinuity, on
+		 * until 43 regular frames have passed since the last one, and every carrier three times more --- */
+		for (i = 0; i < 2; i++) {
+			if (i == 1) {
+				if (z->kind != ZK_ZAP && z->kind != ZK_GAP_ONLY) break;
+				if (!n_gap_frames) break;
+			}
+			for (c = 0; c < 4; c++) need[c] = 0;
+			if (sys525) need[0] = i ? 3 : 4;
+			else for (c = 0; c < 4; c++) need[c] = act[c] ? (i ? 3 : 4) + (c == CR_WSS ? 2 : 0) : 0;
+			left = need[0] + need[1] + need[2] + need[3];
+			while (n_rx < MAXRX - 40) {
+				struct rx *x;
+				int late = i == 1 && frame_no + (gap_pending ? 1 : 0) - gap_frames[n_gap_frames - 1] < 43;
+				if (!left && !late) break;
+				if (left) { do c = (int)vf_below(r, 4); while (!need[c]); }
+				else if (sys525) c = 0;
+				else do c = (int)vf_below(r, 4); while (!act[c]);
+				x = add_rx(sys525 ? CR_XNAME : c); if (!x) break;
+				if (need[c] && !late) { need[c]--; left--; }
+				x->phase = k;
+				if (sys525) strcpy(x->str, cur.name);
+				else if (c <= CR_8302) { x->cni = x->clean_cni = cur.st->cni[c]; x->station = cur.st->id; }
+				else { x->wss = wss; tx_wss(x->word, &wss); }
+				if (!sys525) fill_common(x, &pg, &ck);
+				transmit(sys525 ? NULL : r, n_rx - 1);
+				if (z->sparse) { int n = vf_range(r, 2, 20); while (n-- > 0) { tick(period); vf_phase("vbi_decode"); vbi_decode(vbi, NULL, 0, now); } }
+			}
+		}
+		z->settled = n_rx; z->f_obs = frame_no;
+		if (probe && change && k > 0) z->old_probe_cached = cached(probe);
+		probe = tx_probe();
+		z->probe = probe;
+		if (!cached(probe)) { vf_fail("harness:C13:probe-not-cached", "probe page %x not cached right after transmission", probe); del_decoder(); return 0; }
+
+		/* --- steady: regular frames, programme changes --- */
+		steady = vf_range(r, 4, 24);
+		for (i = 0; i < steady && n_rx < MAXRX - 40; i++) {
+			struct rx *x;
+			if (sys525) c = 0; else do c = (int)vf_below(r, 4); while (!act[c]);
+			x = add_rx(sys525 ? CR_XNAME : c); if (!x) break;
+			x->phase = k;
+			if (sys525) strcpy(x->str, cur.name);
+			else if (c <= CR_8302) { x->cni = x->clean_cni = cur.st->cni[c]; x->station = cur.st->id; if (vf_chance(r, 1, 15)) rand_prog(r, &pg); }
+			else { x->wss = wss; tx_wss(x->word, &wss); }
+			if (!sys525) fill_common(x, &pg, &ck);
+			transmit(sys525 ? NULL : r, n_rx - 1);
+		}
+		z->end = n_rx; z->f_end = frame_no;
+		z->probe_cached_at_end = cached(probe);
+	}
+	idle_frames(3);
+	vf_sample("%s", desc);
+	rules_R1_R2_R3();
+	judge_zap();
+	del_decoder();
+	return n_ev > 0;
+}
+
 static int run_case(struct vf_rng *r, long idx)
 {
 	if (!stations) build_stations();
 	if (0 == strcmp(vf_mode, "xds")) return run_xds(r);
 	if (0 == strcmp(vf_mode, "exh")) return run_exh(idx, (int)vf_param[0]);
+	if (0 == strcmp(vf_mode, "zap")) return run_zap(r);
 	{
 		struct vf_rng r2 = *r;
 		struct twin tw;
@@ -1560,6 +1985,37 @@ static void selftest(void)
 		eval_only = 0; collecting = 0; evs = evs_lib;
 		EXPECT("rules on strict h1", n_vlist == 0);
 		n_rx = n_ev = n_vlist = 0;
+		/* the rules for a station change with a time stamp discontinuity, on hand made logs */
+		{
+			static const struct { int n; struct { long frame; int named; } e[3]; int old_cached, kind, nviol; const char *key0; } t[] = {
+				{ 1, { { 13, 1 } }, 0, ZK_ZAP, 0, "" },                                  /* announced inside the countdown */
+				{ 2, { { 50, 0 }, { 53, 1 } }, 0, ZK_ZAP, 0, "" },                        /* old station revoked first */
+				{ 3, { { 13, 1 }, { 50, 0 }, { 52, 1 } }, 0, ZK_ZAP, 2, "model:C13:R5:time-gap:network-events-on-change" },
+				{ 2, { { 13, 1 }, { 50, 0 } }, 0, ZK_ZAP, 1, "model:C13:R5:time-gap:new-station-revoked" },
+				{ 0, { { 0, 0 } }, 0, ZK_ZAP, 1, "model:C13:R5:time-gap:network-events-on-change" },
+				{ 1, { { 50, 0 } }, 0, ZK_ZAP, 1, "model:C13:R5:time-gap:network-events-on-change" },
+				{ 3, { { 40, 0 }, { 50, 0 }, { 53, 1 } }, 0, ZK_ZAP, 1, "model:C13:R5:time-gap:network-events-on-change" },
+				{ 1, { { 13, 1 } }, 1, ZK_ZAP, 1, "model:C13:R5:time-gap:old-pages-kept" },
+				{ 2, { { 50, 0 }, { 53, 1 } }, 0, ZK_PLAIN, 1, "model:C13:R5:network-events-on-change" },
+				{ 1, { { 13, 1 } }, 0, ZK_PLAIN, 0, "" },
+				{ 3, { { 13, 1 }, { 50, 0 }, { 52, 1 } }, 0, ZK_GAP_ONLY, 0, "" },           /* not judged */
+				{ 1, { { 80, 1 } }, 0, ZK_START, 1, "model:C13:network-event-without-change" },
+			};
+			unsigned q;
+			for (q = 0; q < sizeof t / sizeof t[0]; q++) {
+				memset(zph, 0, sizeof zph); memset(evs_ref, 0, sizeof evs_ref[0] * 4);
+				n_zph = 1; zph[0].kind = t[q].kind; zph[0].f_start = zph[0].f_gap = 10; zph[0].f_obs = 70; zph[0].f_end = 90;
+				zph[0].probe_cached_at_end = 1; zph[0].old_probe_cached = t[q].old_cached;
+				for (k = 0; k < t[q].n; k++) { evs_ref[k].type = VBI_EVENT_NETWORK; evs_ref[k].frame = t[q].e[k].frame; evs_ref[k].net.nuid = t[q].e[k].named ? 7 : 0; }
+				n_ev = t[q].n; evs = evs_ref; domain = D_ZAP; desc[0] = 0;
+				eval_only = 1; collecting = 1; n_vlist = 0;
+				judge_zap();
+				eval_only = 0; collecting = 0; evs = evs_lib;
+				if (n_vlist != t[q].nviol || (n_vlist && strcmp(vlist[0].key, t[q].key0)))
+					vf_fail("selftest:C13", "time gap rules, hand log %u: %d violation(s), first '%s'", q, n_vlist, n_vlist ? vlist[0].key : "");
+			}
+			n_zph = n_ev = n_vlist = 0;
+		}
 #undef LOAD
 #undef EXPECT
 	}
